@@ -577,20 +577,10 @@ theorem early_stop_best_is_argmin_of_recorded (env : XEnv) (pre maxRepeats : Nat
 
 /-! ### what else the clean-up could do with futures that had already finished -/
 
-/-- seeded change C08-r3-1: `_maybe_cancel_futures` passes the result of every finished popped
-    future to `_maybe_report_result` (recorded, fed to the optlib) — but not to the comparison -/
-def harvestReportOnly (env : XEnv) (ps : XPState) : XState :=
-  ps.discarded.foldl (fun h f =>
-    match env.trialFn f.2 f.1 with
-    | some t => xreport h f.1 t
-    | none => h) ps.h
-
-/-- the harmless alternative: record *and* compare them -/
-def harvestAndAssess (env : XEnv) (ps : XPState) : XState :=
-  ps.discarded.foldl (fun h f =>
-    match env.trialFn f.2 f.1 with
-    | some t => xcomplete h f.1 t
-    | none => h) ps.h
+/- `harvestReportOnly` (seeded change C08-r3-1: `_maybe_cancel_futures` passes the result of every
+   finished popped future to `_maybe_report_result` — recorded, fed to the optlib, but not compared)
+   and `harvestAndAssess` (the harmless alternative: record *and* compare) are defined in
+   `Model/HyperX.lean`. -/
 
 def harvested (env : XEnv) (l : List (Setting × Nat)) : XLog :=
   l.filterMap fun f => (env.trialFn f.2 f.1).map fun t => (f.1, t)
